@@ -12,6 +12,7 @@ import (
 	"fmt"
 	"os"
 	"sort"
+	"strings"
 	"sync"
 	"sync/atomic"
 	"time"
@@ -60,13 +61,18 @@ func (s *c27srv) handle(c *scriptsrv.Conn, reqID uint32, r ua.Request) (ua.Respo
 		}
 		s.mu.Unlock()
 		go func() {
-			if kind == 'O' || kind == 'E' || kind == 'B' {
+			if kind == 'O' || kind == 'E' || kind == 'B' || kind == 'D' {
 				<-s.releaseCh // answered only when the harness says so (after the API calls have been issued)
 			} else {
 				time.Sleep(time.Duration(d) * time.Millisecond)
 			}
 			var resp ua.Response
-			if kind == 'o' || kind == 'O' {
+			if kind == 'd' || kind == 'D' {
+				// a data change notification for subscription 1
+				resp = &ua.PublishResponse{ResponseHeader: hdr(), SubscriptionID: 1, AvailableSequenceNumbers: []uint32{},
+					NotificationMessage: &ua.NotificationMessage{SequenceNumber: uint32(k + 1), PublishTime: time.Now(), NotificationData: []*ua.ExtensionObject{dataChange()}},
+					Results:             []ua.StatusCode{}, DiagnosticInfos: []*ua.DiagnosticInfo{}}
+			} else if kind == 'o' || kind == 'O' {
 				resp = &ua.PublishResponse{ResponseHeader: hdr(), SubscriptionID: 1, AvailableSequenceNumbers: []uint32{},
 					NotificationMessage: &ua.NotificationMessage{SequenceNumber: uint32(k + 1), PublishTime: time.Now(), NotificationData: []*ua.ExtensionObject{}},
 					Results:             []ua.StatusCode{}, DiagnosticInfos: []*ua.DiagnosticInfo{}}
@@ -94,6 +100,7 @@ func (s *c27srv) handle(c *scriptsrv.Conn, reqID uint32, r ua.Request) (ua.Respo
 type c27obs struct {
 	Case        *Case  `json:"case"`
 	Done        []bool `json:"done"`
+	APIDone     []bool `json:"api_done"` // the API call of the operation returned (a consumer may still wait for a notification)
 	Outstanding bool   `json:"outstanding"`
 	Subs        []int  `json:"subs"`
 	SubsBlocked bool   `json:"subs_blocked"`
@@ -192,7 +199,13 @@ func c27Run(cs *Case) c27obs {
 	done := make([]bool, nops)
 	var mu sync.Mutex
 	subsByID := map[int]*opcua.Subscription{}
-	notifs := make(chan *opcua.PublishNotificationData, 1024)
+	// the application reads Notifs only in its consumer operations (kind 3): the channel is unbuffered then
+	nbuf := 1024
+	if strings.ContainsAny(script, "dD") {
+		nbuf = 0
+	}
+	notifs := make(chan *opcua.PublishNotificationData, nbuf)
+	apiDone := make([]bool, nops)
 	var wg sync.WaitGroup
 	runOp := func(i int) {
 		kind, id := cs.L[2*i], cs.L[2*i+1]
@@ -216,9 +229,17 @@ func c27Run(cs *Case) c27obs {
 			} else {
 				c.ForgetSubscription(ctx, uint32(id))
 			}
+		case 3:
+			// the consumer: it first asks the client which subscriptions it holds, then receives
+			c.SubscriptionIDs()
+			mu.Lock()
+			apiDone[i] = true
+			mu.Unlock()
+			<-notifs
 		}
 		mu.Lock()
 		done[i] = true
+		apiDone[i] = true
 		mu.Unlock()
 	}
 	// sequential prefix: ops before the marker P["seq"] run one after the other (set-up), the rest concurrently
@@ -254,6 +275,7 @@ func c27Run(cs *Case) c27obs {
 	}
 	mu.Lock()
 	ob.Done = append([]bool(nil), done...)
+	ob.APIDone = append([]bool(nil), apiDone...)
 	mu.Unlock()
 	sv.mu.Lock()
 	ob.Pubs = sv.pubs
@@ -282,6 +304,9 @@ func c27Gen(r *rng.R, i int) *Case {
 	c.L = []int{0, 1}
 	c.P["seq"] = 1
 	n := r.Range(2, 3)
+	if i%3 == 0 {
+		n = r.Range(1, 2) // a consumer goroutine is added below
+	}
 	for k := 0; k < n; k++ {
 		kind := r.Pick(0, 1, 1, 2)
 		c.L = append(c.L, kind, r.Pick(1, 1, 2))
@@ -297,6 +322,16 @@ func c27Gen(r *rng.R, i int) *Case {
 			sc += "o"
 		}
 		c.P[fmt.Sprintf("pdelay%d", k)] = r.Intn(60)
+	}
+	// one program in three has a consumer goroutine and data notifications
+	if i%3 == 0 {
+		c.L = append(c.L, 3, 0)
+		c.P[fmt.Sprintf("delay%d", len(c.L)/2-1)] = r.Intn(40)
+		if sc == "" {
+			sc = "D"
+		} else {
+			sc = "D" + strings.Repeat("d", len(sc)-1)
+		}
 	}
 	c.S["script"] = sc
 	c.P["settle"] = r.Intn(100)
@@ -329,6 +364,9 @@ func c27Main(seed uint64, n int, replay string) {
 		// the witness of the (fixed) deadlock first: Subscribe 1; three Cancels of it while the publish answer is held
 		cases = append(cases, &Case{ID: 0, Op: "c27", L: []int{0, 1, 2, 1, 2, 1, 2, 1}, P: map[string]int{"seq": 1, "delay2": 30, "delay3": 60}, S: map[string]string{"script": "O"}})
 		cases = append(cases, &Case{ID: 1, Op: "c27", L: []int{0, 1, 0, 2, 0, 3, 0, 4}, P: map[string]int{"seq": 1}, S: map[string]string{"script": "O"}})
+		// the consumer calls the API while the loop wants to hand it a notification
+		cases = append(cases, &Case{ID: len(cases), Op: "c27", L: []int{0, 1, 3, 0}, P: map[string]int{"seq": 1, "settle": 300}, S: map[string]string{"script": "D"}})
+		cases = append(cases, &Case{ID: len(cases), Op: "c27", L: []int{0, 1, 3, 0, 1, 1}, P: map[string]int{"seq": 1, "settle": 300, "delay2": 10}, S: map[string]string{"script": "D"}})
 		// a publish error for all subscriptions while several goroutines keep write-locking subMux
 		for k := 0; k < 3; k++ {
 			cases = append(cases, &Case{ID: len(cases), Op: "c27", P: map[string]int{"nsubs": 48, "writers": 4}, S: map[string]string{"script": "B", "kind": "stress"}})
